@@ -391,7 +391,7 @@ def derivVerdict (o : Obj) (impl : List String) (var : String) (order : Nat) : S
       -- double range of the log-sum recursions: they divide by every emission probability (squared at order 2)
       let eLo : Float := if order == 1 then 1e-140 else 1e-95
       let applicable := match o.core with
-        | .resc _ => stationary t
+        | .resc _ => true
         | .log _ => t.positive && t.E.all (· ≥ eLo)
         | .low _ => false
       if o.stale || !t.nonneg || !applicable || !validBreaks t.T o.bps || !rangeOk t o.bps then "-" else
@@ -426,7 +426,7 @@ def derivSiteVerdict (o : Obj) (impl : List String) (site : Nat) (second : Bool)
       -- the second-order accessor of the rescaled class mixes the arrays of the two variables when they differ
       if second && var != var2 then "-" else
       let applicable := match o.core with
-        | .resc _ => stationary t
+        | .resc _ => true
         | .log _ => t.positive && t.E.all (· ≥ 1e-95)
         | .low _ => false
       if !t.nonneg || !applicable || !validBreaks t.T o.bps || !rangeOkAt 1e-95 t o.bps then "-" else
@@ -955,13 +955,15 @@ def step (s : St) (op : List String) (impl : Option (List String)) : St × Strin
         if dop != "d1" && dop != "d2" then (s, "bad-op", "-") else
         let mop : Op Float := if dop == "d1" then .d1 var else .d2 var
         let (o1, a) := runOp o mop
-        let o2 := match a with | .exc => { o1 with stale := true } | _ => o1
+        -- the low-memory class does not implement derivatives: the call raises and changes nothing
+        let o2 := match a, o.core with | .exc, .low _ => o1 | .exc, _ => { o1 with stale := true } | _, _ => o1
         (s.put k o2, showAns a,
             match impl with
-            | some i => if isExc i || var == "" then "-" else
+            | some i =>
                 (match o.core with
-                 | .low _ => "-"
-                 | _ => both (derivVerdict o i var (if dop == "d1" then 1 else 2)) (histCheck o i (specOf o mop)))
+                 | .low _ => if isExc i then "ok" else "FAIL:history_independent"
+                 | _ => if isExc i || var == "" then "-" else
+                     both (derivVerdict o i var (if dop == "d1" then 1 else 2)) (histCheck o i (specOf o mop)))
             | none => "-")
       | _, _ => (s, "bad-op", "-")
   | _ => (s, "bad-op", "-")
